@@ -613,6 +613,53 @@ def run_option_values(fst, res):
             res.fail(cid, 'code-lines-modified-by-edit', f'{lines} results={outs}', {}, {'optval': ['code', src]})
 
 
+def run_option_dicts(fst, res):
+    """Option *dicts* handed to a call (sub/subn copy_options / repl_options, FST.options(**d), per-call **d) belong to the caller:
+    the call must not write into them, and a dict that was accepted once is validated again the next time."""
+    import fst.match as M
+    FST = fst.FST
+    goods = [{'pars': True}, {'trivia': False, 'pep8space': False}, {}]
+    for gi, good in enumerate(goods):
+        for which in ('copy_options', 'repl_options', 'both'):
+            cid = f'C20/optdict/sub/{gi}/{which}'
+            rep = {'optval': ['dict', gi, which]}
+            res.evals += 1
+            d = dict(good)
+            kw = {'copy_options': d} if which == 'copy_options' else {'repl_options': d} if which == 'repl_options' else {'copy_options': d, 'repl_options': d}
+            outs = []
+            for _ in range(2):
+                f = FST('x = a + b\ny = c', 'exec')
+                res.transitions += 1
+                try:
+                    f.sub(M.MName('a'), 'log(__FST_)', **kw)
+                    outs.append(f.src)
+                except Exception as e:  # noqa: BLE001
+                    outs.append('EXC:' + e.__class__.__name__)
+                if d != good:
+                    res.fail(cid, 'caller-option-dict-modified-by-call', f'{d} != {good}', {}, rep)
+                    break
+            else:
+                res.traces += 1
+                if len(set(outs)) != 1:
+                    res.fail(cid, 'same-call-different-result', f'{outs}', {}, rep)
+                    continue
+                # the same dict, now with an invalid value: has to be refused although the dict was accepted before
+                d['trivia'] = 'bogus'
+                f = FST('x = a + b', 'exec')
+                try:
+                    f.sub(M.MName('a'), 'log(__FST_)', **kw)
+                    res.fail(cid, 'invalid-option-accepted-in-reused-dict', f'{d} result={f.src!r}', {}, rep)
+                except Exception:  # noqa: BLE001
+                    res.nontriv('optdict', gi, which)
+                d.pop('trivia')
+                try:  # and the dict is still a plain options dict for every other entry point
+                    with FST.options(**d):
+                        pass
+                    FST('a', 'exec').body[0].value.replace('b', **d)
+                except Exception as e:  # noqa: BLE001
+                    res.fail(cid, 'option-dict-unusable-after-call', f'{d} {e!r}', {}, rep)
+
+
 def shards(tier):
     out = [{'kind': 'inventory'}, {'kind': 'oplevel'}, {'kind': 'optval'}]
     M = 16
@@ -646,6 +693,7 @@ def run_shard(desc, tier, res):
         run_oplevel(fst, res)
     elif k == 'optval':
         run_option_values(fst, res)
+        run_option_dicts(fst, res)
     elif k == 'proto':
         if desc['part'][0] % 2:  # half of the histories run in a non-main thread (the option store is thread-local: whatever is
             import threading    # bound to the importing thread at import time must not be what other threads read)
@@ -671,6 +719,7 @@ def replay(rep, res):
     import fst
     if 'optval' in rep:
         run_option_values(fst, res)
+        run_option_dicts(fst, res)
     elif 'hist' in rep:
         run_history(fst, [tuple(x) for x in rep['hist']], res, 'replay')
     elif 'choices' in rep:
